@@ -105,13 +105,17 @@ func (q *MultiOpQueryer) fetch(inputs []*requests.Request) ([]requests.Response,
 }
 
 func (q *MultiOpQueryer) fetchFile(input *requests.Request) (*requests.Response, error) {
-	uploadMap := extractFiles(input)
+	uploadMap, variables := extractFilesAndVariables(input)
 
 	if uploadMap.Empty() {
 		return nil, nil
 	}
 
-	bInput, err := json.Marshal(input)
+	bInput, err := json.Marshal(&requests.Request{
+		Query:         input.Query,
+		Variables:     variables,
+		OperationName: input.OperationName,
+	})
 	if err != nil {
 		return nil, err
 	}
